@@ -248,7 +248,8 @@ class Check:
         ev = {"property_id": self.pid, "tier": self.tier, "seed": self.seed, "level": level,
               "coverage": cov, "assumptions": self.assumptions, "wall_s": round(wall, 2),
               "violations": len(self.violations), "notes": self.notes}
-        with open(f"{EVID}/{self.pid}.json", "w") as f:
+        # a replay is not a check run: it must not overwrite the evidence of the last check
+        with open(f"{WORK}/replay-evidence-{self.pid}.json" if getattr(self, "is_replay", False) else f"{EVID}/{self.pid}.json", "w") as f:
             json.dump(ev, f, indent=1)
         status = "VIOLATIONS" if self.violations else "ok"
         print(f"[{self.pid}] tier={self.tier} seed={self.seed} obligations={cov.get('obligations', cov.get('obligations_total'))} discharged={cov.get('discharged', 0)} "
